@@ -72,3 +72,48 @@ def letters_hex(pattern_bytes):
     """the non-ASCII runes of a regex source that unicode.IsLetter accepts (the Lean port takes IsLetter as data)"""
     t = pattern_bytes.decode("utf-8", "replace")
     return "".join(sorted({c for c in t if ord(c) > 127 and c != "\ufffd" and c.isalpha()})).encode().hex() or "-"
+
+
+import threading
+
+
+def confirm_hangs(lines, answers, stat=None, cap=40):
+    """A wall-clock timeout is never believed on its first occurrence: every `timeout` answer is re-run ALONE in a fresh
+    worker with a 30 s budget (LEXRX_BUDGET_MS); only inputs that still do not finish keep their `timeout` answer, the others
+    get their real answer and are counted as slow_under_load. At most `cap` inputs are re-run (shortest first); if none of
+    those is a real hang the rest is taken to be slow as well (answer `slow`), if one is, the rest keep `timeout`."""
+    idx = sorted((i for i, a in enumerate(answers) if a.startswith("timeout")), key=lambda i: len(lines[i]))
+    if not idx:
+        return answers
+    answers = list(answers)
+    todo = idx[:cap]
+    res = {}
+    lock = threading.Lock()
+    it = iter(todo)
+
+    def go():
+        while True:
+            with lock:
+                i = next(it, None)
+            if i is None:
+                return
+            res[i] = vlib.run_impl([lines[i]], extra_env={"LEXRX_BUDGET_MS": "30000"}, per_line_timeout=90, timeout=90)[0]
+    ths = [threading.Thread(target=go) for _ in range(min(4, len(todo)))]
+    for t in ths:
+        t.start()
+    for t in ths:
+        t.join()
+    real = 0
+    for i in todo:
+        if res[i].startswith("timeout") or res[i].startswith("fatal timeout"):
+            real += 1
+        else:
+            answers[i] = res[i]
+            if stat:
+                stat("slow_under_load")
+    if real == 0:
+        for i in idx[cap:]:
+            answers[i] = "slow"
+            if stat:
+                stat("slow_under_load")
+    return answers
